@@ -107,7 +107,8 @@ func (e *Enc) encCall(v ssa.Value, c *ssa.CallCommon, st *State, guard string, d
 				}
 				n := e.callCount["cs:"+nm]
 				e.callCount["cs:"+nm] = n + 1
-				e.oblige("callsite", fmt.Sprintf("%s@%d", nm, n), nm, guard, ctx.evalBool(cc.C), pos, cc.C.Src)
+				goal, src := e.goalOf(ctx, cc.C)
+				e.oblige("callsite", fmt.Sprintf("%s@%d", nm, n), nm, guard, goal, pos, src)
 			}
 		}
 	}
